@@ -528,14 +528,14 @@ func incarnationAlphabet() []Op {
 
 var cntIncPruned int64
 
-// usefulIncarnationProgram is a model-only pre-pass (the real object is not touched): it rejects
+// usefulProgram is a model-only pre-pass of the deep, narrow stages E3/E4 (the real object is not touched): it rejects
 // infeasible programs and programs that contain a token which, by the reference model, is a no-op
 // at that point, because the same behaviour is enumerated by a shorter sequence of the same stage:
 // Finalise with an empty journal, IntermediateRoot with nothing journalled or pending, Commit+reopen
 // with nothing done since the last reopen, Suicide of a non-existent account, SetState to the current
 // value, Revert directly after its Snapshot, a Snapshot that is never reverted to. Copies taken while
 // the journal is non-empty are left to E2 (finding F1 is decided there).
-func usefulIncarnationProgram(prog []Op) bool {
+func usefulProgram(prog []Op) bool {
 	var (
 		m       model
 		msnaps  []model
@@ -556,7 +556,10 @@ func usefulIncarnationProgram(prog []Op) bool {
 			since = append(since, 0)
 			continue
 		case kRevert:
-			k := len(msnaps) - 1
+			k, _ := resolveRev(int(op.V), len(msnaps))
+			if op.V >= 0 && len(msnaps) == 1 {
+				return false // Revert(oldest) with one open snapshot is Revert(latest)
+			}
 			if since[k] <= 1 {
 				return false
 			}
@@ -612,6 +615,44 @@ func usefulIncarnationProgram(prog []Op) bool {
 }
 
 func stageInc(name string, L int, modes func(prog []Op) []int) {
+	stageSeq(name, incarnationAlphabet(), nil, Op{K: kCommit, V: 1}, L, modes)
+}
+
+// enumeration E4 "multi-transaction slot histories": one account, writes to the same slot spread over
+// several transactions of one block (Finalise-only boundaries keep the earlier write in the pending
+// tier, IntermediateRoot / Commit flush it), interleaved with nested snapshots and reverts.
+func slotHistoryAlphabet() []Op {
+	return []Op{
+		{K: kSetState, A: 0, S: 0, V: 0}, // block-start value of a fresh slot
+		{K: kSetState, A: 0, S: 0, V: 1}, // committed value in the "committed slot" base
+		{K: kSetState, A: 0, S: 0, V: 2},
+		{K: kSetState, A: 0, S: 1, V: 1}, // a second slot of the same account
+		{K: kSnapshot},
+		{K: kRevert, V: -1},
+		{K: kRevert, V: 0},
+		{K: kFinalise, V: 0},         // transaction boundary only
+		{K: kIntermediateRoot, V: 0}, // boundary + flush into the trie
+		{K: kCommit, V: 0},           // boundary + commit + reopen
+	}
+}
+
+// the two bases of E4: a fresh slot of a fresh account, and a slot that exists in the committed trie
+func slotHistoryBases() (names []string, prefixes [][]Op) {
+	return []string{"fresh slot", "committed slot"},
+		[][]Op{nil, {{K: kSetState, A: 0, S: 0, V: 1}, {K: kCommit, V: 0}}}
+}
+
+func stageSlots(name string, L int, modes func(prog []Op) []int) {
+	names, prefixes := slotHistoryBases()
+	for i := range prefixes {
+		// closed by Commit(false): the account holds nothing but storage, Commit(true) would delete it
+		stageSeq(fmt.Sprintf("%s, %s", name, names[i]), slotHistoryAlphabet(), prefixes[i], Op{K: kCommit, V: 0}, L, modes)
+	}
+}
+
+// stageSeq: every sequence of length L over al, after prefix, closed by closing; pre-pass pruned;
+// all getters of a0 compared with the model after every token.
+func stageSeq(name string, al []Op, prefix []Op, closing Op, L int, modes func(prog []Op) []int) {
 	if skipStage(name) {
 		return
 	}
@@ -619,21 +660,20 @@ func stageInc(name string, L int, modes func(prog []Op) []int) {
 		stages = append(stages, stageInfo{Name: name})
 		return
 	}
-	al := incarnationAlphabet()
 	total := ipow(len(al), L)
 	done := par.For(total, 256, stopped, func(idx int64) {
-		var buf [12]Op
-		prog := buf[:0]
+		var buf [16]Op
+		prog := append(buf[:0], prefix...)
 		x := idx
 		for k := 0; k < L; k++ {
 			prog = append(prog, al[x%int64(len(al))])
 			x /= int64(len(al))
 		}
-		if !usefulIncarnationProgram(prog) {
+		if !usefulProgram(prog) {
 			atomic.AddInt64(&cntIncPruned, 1)
 			return
 		}
-		prog = append(prog, Op{K: kCommit, V: 1})
+		prog = append(prog, closing)
 		for _, m := range modes(prog) {
 			execute(prog, runCfg{Mode: m, ObsEvery: true, ObsAddrs: 1})
 		}
@@ -747,14 +787,20 @@ func main() {
 		for L := 1; L <= 4; L++ {
 			stageInc(fmt.Sprintf("E3:incarnations L=%d (all modes)", L), L, allModes)
 		}
+		for L := 1; L <= 4; L++ {
+			stageSlots(fmt.Sprintf("E4:slot histories L=%d (all modes)", L), L, allModes)
+		}
 		stageE1("E1:|P|=0,|B|=0", core, core, 0, 0, fins, false, false)
 		stageE1("E1:|P|=0,|B|=1 full", full, full, 0, 1, fins, true, false)
 		stageE1("E1:|P|=1 core x 7 finishers,|B|=1 core (+snap)", core, core, 1, 1, fins, true, true)
 		stageE1("E1:|P|=0,|B|=2 full", full, full, 0, 2, fins, false, false)
+		stageSlots("E4:slot histories L=5 (trie)", 5, trieOnly)
+		stageSlots("E4:slot histories L=6 (trie)", 6, trieOnly)
 		stageInc("E3:incarnations L=5 (trie)", 5, trieOnly)
 		stageE1("E1:|P|=1 core x 7 finishers,|B|=2 core (+snap)", core, core, 1, 2, fins, false, true)
 		stageE2("E2:straight L=3 (snapshot modes after Commit/IntermediateRoot)", straight, 3, commitModes)
 		stageInc("E3:incarnations L=6 (trie)", 6, trieOnly)
+		stageSlots("E4:slot histories L=7 (trie)", 7, trieOnly)
 		stageE1("E1:|P|=1 full x 7 finishers,|B|=1 full (+snap)", full, full, 1, 1, fins, false, true)
 		stageE1("E1:|P|=1 core x {none,Commit},|B|=2 full", core, full, 1, 2, fins2, false, false)
 	} else {
@@ -764,6 +810,11 @@ func main() {
 		for L := 1; L <= 5; L++ {
 			stageInc(fmt.Sprintf("E3:incarnations L=%d (all modes)", L), L, allModes)
 		}
+		for L := 1; L <= 5; L++ {
+			stageSlots(fmt.Sprintf("E4:slot histories L=%d (all modes)", L), L, allModes)
+		}
+		stageSlots("E4:slot histories L=6 (trie)", 6, trieOnly)
+		stageSlots("E4:slot histories L=7 (trie)", 7, trieOnly)
 		stageE1("E1:|P|=0,|B|=0", core, core, 0, 0, fins, false, false)
 		stageE1("E1:|P|=0,|B|=1 full nested", full, full, 0, 1, fins, true, false)
 		stageE1("E1:|P|=1 full x 7 finishers,|B|=1 full nested (+snap)", full, full, 1, 1, fins, true, true)
@@ -774,6 +825,7 @@ func main() {
 		stageInc("E3:incarnations L=6 (trie)", 6, trieOnly)
 		stageE2("E2:straight L=4 (snapshot modes after Commit/IntermediateRoot)", straight, 4, commitModes)
 		stageInc("E3:incarnations L=7 (trie)", 7, trieOnly)
+		stageSlots("E4:slot histories L=8 (trie)", 8, trieOnly)
 		stageE1("E1:|P|=0,|B|=3 core nested", core, core, 0, 3, fins, true, false)
 		stageE1("E1:|P|=2 core x 7 finishers,|B|=1 core nested (+snap)", core, core, 2, 1, fins, true, true)
 		stageE1("E1:|P|=1 core x {none,Commit},|B|=3 core nested", core, core, 1, 3, fins2, true, false)
@@ -822,7 +874,8 @@ func main() {
 		"E2: every straight sequence of the stated length over core mutators + {Snapshot,Revert(latest),Revert(oldest),Finalise(t/f),IntermediateRoot(t/f),Commit(t/f)+reopen,Copy>copy,Copy>orig} closed by Commit(true)+reopen, "+
 		"each in trie mode and (where stated) with an in-memory snapshot tree kept as diff layers / flattened to the disk layer. "+
 		"E3 'incarnations': every sequence of the stated length over the 13 tokens {AddBalance(a0,1),Commit(t)+reopen,CreateAccount(a0),Suicide(a0),Finalise(t),IntermediateRoot(f/t),SetState(a0,s0,1/2/0),Snapshot,Revert(latest),Copy>copy} closed by Commit(true)+reopen, all getters of a0 compared with the model after every token; "+
-		"a model-only pre-pass drops infeasible sequences and sequences containing a token that is a no-op by the model at that point (covered by a shorter sequence of the stage), an unused Snapshot, or a Copy with a non-empty journal (F1 is decided in E2); the dropped sequences are counted. Programs whose next token is infeasible (SubBalance/SubRefund below zero, Revert without a valid revision) are skipped and counted. "+
+		"E4 'multi-transaction slot histories': every sequence of the stated length over the 10 tokens {SetState(a0,s0,0/1/2),SetState(a0,s1,1),Snapshot,Revert(latest),Revert(oldest),Finalise(f),IntermediateRoot(f),Commit(f)+reopen}, from two bases (empty state = fresh slot; SetState(a0,s0,1);Commit(f) = slot in the committed trie), closed by Commit(false)+reopen, same per-token comparison; "+
+		"in E3/E4 a model-only pre-pass drops infeasible sequences and sequences containing a token that is a no-op by the model at that point (covered by a shorter sequence of the stage), an unused Snapshot, or a Copy with a non-empty journal (F1 is decided in E2); the dropped sequences are counted. Programs whose next token is infeasible (SubBalance/SubRefund below zero, Revert without a valid revision) are skipped and counted. "+
 		"states = distinct reference-model states reached (fingerprints); transitions = tokens executed on the real StateDB; a revert check is non-trivial when the model state differed from the snapshot before the revert.")
 	r.Assume(
 		"the reference root is computed with go-ethereum v1.9.15 trie/rlp/keccak over rlp([nonce,balance,storageRoot,codeHash]); the repository's trie itself is C07's subject",
